@@ -40,7 +40,7 @@ LEVEL_TEXT = ("For every table built from <= 2 (quick) / <= 3 (thorough) column 
               "record limits (one with a zero) and two record sets, every state reachable by <= 3 / <= 4 life-cycle operations "
               "is visited; in each state str(table.fmt) is fed to the setter and to the constructor and the "
               "renderings are compared; empty formats must change nothing.")
-LEVEL_NOTE = ("Bounded: column alphabet of 18 descriptions over three fields, two record sets, depth of the "
+LEVEL_NOTE = ("Bounded: column alphabet of 22 descriptions over six fields (two with parentheses in the name), two record sets, depth of the "
               "life-cycle. Trusted: the small reference parser of the fmt grammar in this file. Renderings are "
               "compared without colors (C10 covers colors).")
 RULE = ("case = one distinct state (canonical key) of one table's life-cycle machine, reached by the shortest "
@@ -54,23 +54,25 @@ ASSUMPTIONS = [
     "records are not modified during the table's life",
     "min width <= max width",
 ]
-REQUIRED_FEATURES = ["col:fixed", "col:ranged", "col:default-width", "col:modifier", "col:break-by",
+REQUIRED_FEATURES = ["col:field-name-with-parenthesis", "col:fixed", "col:ranged", "col:default-width", "col:modifier", "col:break-by",
                      "col:repeated-field", "col:hidden", "limits:none", "limits:star", "limits:1:1", "limits:2:0", "limits:3:3", "limits:2:2",
                      "window:truncated-though-records<=limits",
                      "state:fresh", "state:printed", "state:re-formatted", "state:printed-lines-skipped",
                      "op:rebuild-accepted", "op:set-own-fmt-accepted", "fmt:width-annotation", "fmt:limits-omitted"]
 
-FIELDS = ["id", "name", "st"]
+# SQL-style field names with parentheses; 'size' is a prefix of 'size(kb)' up to the parenthesis
+FIELDS = ["id", "name", "st", "size", "size(kb)", "count(*)"]
 COLS = ["id:3", "name:5", "st:12",                     # fixed (name:5 truncates)
         "id:1-4", "name:2-6", "name:3-20", "st:4-30",    # ranged
         "id", "name", "st",                              # default widths
         "st/val", "st/name:3-20", "st/full:20",          # enum modifiers
         "id!:2", "st!", "st/name!:3-8", "name!",         # break-by
-        "name:-1"]                                       # hidden field
-COLS3 = ["id:3", "name:2-6", "name:3-20", "st", "st/val", "st/name!:3-8", "id!:2", "name!", "name:-1", "st:4-30"]
+        "name:-1",                                       # hidden field
+        "size(kb)", "size(kb):2-12", "count(*)", "size:3"]   # field names containing '(' (sql columns)
+COLS3 = ["size(kb)", "name:2-6", "name:3-20", "st", "st/val", "st/name!:3-8", "id!:2", "name!", "name:-1", "st:4-30"]
 # pairs over this sub-alphabet in the quick tier (all descriptions as single columns; all pairs in thorough)
 COLS2_QUICK = ["name:2-6", "name:3-20", "st", "st/val", "st/name:3-20", "id!:2", "st!", "st/name!:3-8",
-               "name!", "name:-1"]
+               "name!", "name:-1", "size(kb)", "count(*)"]
 LIMITS = {"none": "", "star": ";*", "1:1": ";1:1", "2:0": ";2:0", "3:3": ";3:3", "2:2": ";2:2"}
 # (initial limits, record set).  '3:3' x big and '2:2' x four are the window where, with a break-by column,
 # the empty break lines use up visible slots: n_first + n_last + 1 - #break lines < #records <= n_first + n_last,
@@ -78,10 +80,11 @@ LIMITS = {"none": "", "star": ";*", "1:1": ";1:1", "2:0": ";2:0", "3:3": ";3:3",
 COMBOS = [("none", "small"), ("none", "big"), ("star", "big"), ("1:1", "small"), ("1:1", "big"), ("2:0", "big"),
           ("3:3", "big"), ("2:2", "four")]
 RECORDS = {
-    "small": [(1, "ab", 10), (2, "abcdefgh", 10), (3, "abc", 999)],
-    "big": [(1, "ab", 10), (22, "abcdefghij", 10), (333, "abc", 999), (4, None, 7), (5, "abcdefg", 20),
-            (6, "a", 20)],
-    "four": [(1, "ab", 10), (1, "abcdefghi", 10), (2, "abc", 999), (3, "abc", 7)],
+    "small": [(1, "ab", 10, 7, 1234, 3), (2, "abcdefgh", 10, 70, 12, 11), (3, "abc", 999, 700, 5, 2)],
+    "big": [(1, "ab", 10, 7, 1, 3), (22, "abcdefghij", 10, 70, 123456, 11), (333, "abc", 999, 7, 12, 2),
+            (4, None, 7, 7000, 1, 1234567), (5, "abcdefg", 20, 7, 1234, 5), (6, "a", 20, 70, 2, 3)],
+    "four": [(1, "ab", 10, 7, 1, 3), (1, "abcdefghi", 10, 70, 12345, 12), (2, "abc", 999, 7, 12, 2),
+             (3, "abc", 7, 700, 1, 1)],
 }
 OTHER_FMT = "name:2-7,id!:3"
 # (fmt = ";" and fmt = ";;" are applied in *every* state by invariant (c); as transitions they lead to the
@@ -242,7 +245,10 @@ class Life:
         self.spec = spec
         self.enum = R.make_enum()
         tup, lim, rec = spec
-        self.table = new_table(spec, self.enum)
+        try:
+            self.table = new_table(spec, self.enum)
+        except Exception as e:  # noqa  -- every table of the alphabet is described by a valid format
+            raise Rejected("construct", e)
         self.model = Model(",".join(tup) + LIMITS[lim])
         self.skipped = False
         self.n_ops = 0
@@ -417,6 +423,8 @@ def explore_table(spec, depth, acc):
             tfeats.add("col:ranged")
         if mod:
             tfeats.add("col:modifier")
+        if "(" in name:
+            tfeats.add("col:field-name-with-parenthesis")
         if brk:
             tfeats.add("col:break-by")
         if name in fields_seen and lo != -1:
@@ -425,7 +433,15 @@ def explore_table(spec, depth, acc):
             fields_seen.append(name)
     tfeats.add("limits:" + spec[1])
 
-    init = replay_path(spec, ())
+    try:
+        init = replay_path(spec, ())
+    except Rejected as r:
+        acc.trans(1)
+        acc.violation("C13:valid-fmt-rejected", {"table": {"columns": list(tup), "limits": spec[1], "records": spec[2]},
+                                                 "path": []},
+                      f"the constructor rejected a valid format string: {r}", str(r), "accepted")
+        acc.case(nontrivial=False, features=sorted(tfeats), outcome="viol:valid-fmt-rejected")
+        return
     seen = {state_key(init): ()}
     frontier = [()]
     level = 0
@@ -497,7 +513,7 @@ def replay(case, acc):
     try:
         label, feats, life = check_state(spec, path, acc)
     except Rejected as r:
-        if r.op not in ("set:self", "rebuild"):
+        if r.op not in ("set:self", "rebuild") or not path:
             acc.violation("C13:valid-fmt-rejected", case, f"a valid format string was rejected: {r}", str(r),
                           "accepted")
         else:                               # the rejection is what check_state reports for the prefix
